@@ -12,6 +12,7 @@ import (
 	"path/filepath"
 	"strings"
 	"sync"
+	"time"
 
 	"github.com/theparanoids/crypki/proto"
 	"golang.org/x/crypto/ssh"
@@ -123,6 +124,7 @@ type stubHandler struct {
 	script    map[string]string // method -> "err" | "panic" | "empty" (Generate returns no keys)
 	nKeys     int
 	nCSRs     int
+	slow      time.Duration
 	AuthCalls int
 	GenCalls  int
 	Keys      []*stubAgentKey
@@ -179,6 +181,8 @@ func (h *stubHandler) Authenticate(p *csr.ReqParam) error {
 	h.AuthCalls++
 	*h.log = append(*h.log, h.name+".Authenticate")
 	switch h.script["Authenticate"] {
+	case "slow":
+		time.Sleep(h.slow) // a handler that takes its time (a slow forwarded agent) and then decides as usual
 	case "panic":
 		h.fire("Authenticate:panic")
 		panic("stub handler: Authenticate panic")
@@ -450,8 +454,12 @@ func defaultParams(logName string) *csr.ReqParam {
 
 // run executes gensign.Run under a panic guard and returns (error, escaped panic).
 func (e *genv) run(p *csr.ReqParam, handlers []gensign.Handler) (err error, escaped string) {
+	return e.runCtx(context.Background(), p, handlers)
+}
+
+func (e *genv) runCtx(ctx context.Context, p *csr.ReqParam, handlers []gensign.Handler) (err error, escaped string) {
 	vrand.ResetLog()
-	escaped = ev.Guard(func() { err = gensign.Run(context.Background(), p, handlers, e.ca) })
+	escaped = ev.Guard(func() { err = gensign.Run(ctx, p, handlers, e.ca) })
 	return
 }
 
